@@ -349,11 +349,13 @@ func c04Run(c *c04Case, doPicks bool, cache *GlobCache, st *c04Stats) {
 	// cycles are exact.  The counter is positioned a little below the count so that the count
 	// is crossed inside the first cycle; three ring lengths are observed.
 	if n > 1 && c.Warmup%3 == 0 {
-		if cur := c04Cursor(rt.r); cur == nil {
+		at := c04Counts[(c.Warmup/3)%len(c04Counts)]
+		if _, bits := vCursorField(rt.r); bits == 32 {
+			at = c04Counts[0] // a 32-bit counter can only be positioned below 2^32
+		}
+		if !vCursorSet(rt.r, at.at-uint64(1+c.Warmup%u)) {
 			atomic.AddInt64(&st.bigSkipped, 1)
 		} else {
-			at := c04Counts[(c.Warmup/3)%len(c04Counts)]
-			atomic.StoreUint64(cur, at.at-uint64(1+c.Warmup%u))
 			big := make([]int, 0, 3*u)
 			var pp any
 			var pstack string
